@@ -163,5 +163,53 @@ Qed.
 
 (* windows: the three C09 statements that make "however long the windows delay delivery" precise *)
 Theorem delivery_under_windows ls :
-  single_init ls = true -> P_conn ls (obs_of ls) /\ P_stream ls (obs_of ls) /\ P_strand ls (obs_of ls).
-Proof. intros H. split; [apply final_conn|split; [apply final_stream; assumption|apply final_strand]]. Qed.
+  P_conn ls (obs_of ls) /\ P_stream ls (obs_of ls) /\ P_strand ls (obs_of ls).
+Proof. split; [apply final_conn|split; [apply final_stream|apply final_strand]]. Qed.
+
+(* ------------------------------------------------ SETTINGS frames are ordered lists *)
+(* the effect of a SETTINGS frame on the relay = the sequential fold over its entries = the
+   last occurrence of each identifier *)
+Theorem settings_frame_effect f y kv f' acts :
+  front f y (FSettings kv) = Some (f', acts) ->
+  f_maxf f' y = match last_occ 5 kv with Some v => v | None => f_maxf f y end
+  /\ f_tab f' y = match last_occ 1 kv with Some v => v | None => f_tab f y end
+  /\ f_maxf f' (other y) = f_maxf f (other y) /\ f_tab f' (other y) = f_tab f (other y)
+  /\ forall m, fold_left a_init1 (acts_to y acts) (Z.of_N m) =
+               Z.of_N (match last_occ 4 kv with Some v => v | None => m end).
+Proof.
+  intros F. destruct (front_ledger _ _ _ _ _ F) as (_ & _ & _ & L3 & _ & _ & L6).
+  pose proof (front_tab _ _ _ _ _ F) as LT.
+  repeat split.
+  - rewrite L6, side_eqb_refl. apply fold_last_occ.
+  - rewrite LT, side_eqb_refl. apply fold_last_occ.
+  - rewrite L6, side_eqb_other'. reflexivity.
+  - rewrite LT, side_eqb_other'. reflexivity.
+  - intros m. rewrite L3, side_eqb_refl. f_equal. apply fold_last_occ.
+Qed.
+
+(* after any script: the windows base, max frame size and table size the relay uses toward x
+   are the sequential fold of everything x announced *)
+Theorem settings_state_is_fold ls x :
+  init (getf (sb (final ls)) x) = init_of x (firstn (length (obs_of ls)) ls)
+  /\ f_maxf (sf (final ls)) x = maxf_of x (firstn (length (obs_of ls)) ls)
+  /\ f_tab (sf (final ls)) x = tabsz_of x (firstn (length (obs_of ls)) ls).
+Proof.
+  destruct (sinv_exec _ _ _ (run_eta ls)) as (I & _).
+  destruct (si_b _ _ _ I x) as [C _].
+  repeat split.
+  - rewrite (c_init _ _ _ _ _ _ _ C). apply (si_init _ _ _ I).
+  - apply (si_maxf _ _ _ I).
+  - apply (si_tab _ _ _ I).
+Qed.
+
+(* fixed defect C09-F2 (was K2): an INTERMEDIATE INITIAL_WINDOW_SIZE value of one SETTINGS frame no
+   longer takes effect: with stream window 0 and 30 octets queued, [IWS=1000; 0x10=1; IWS=10]
+   releases nothing, and [IWS=10; IWS=1000] releases everything *)
+Definition w_k2s : list label :=
+  [ mk Sv (FSettings [(4, 0)])%N; mk Cl (FHeaders 1 false true None 0 false);
+    mk Cl (FData 1 false (bytes_n 30) None); mk Sv (FSettings [(4, 1000); (16, 1); (4, 10)])%N;
+    mk Sv (FSettings [(4, 10); (4, 1000)])%N ].
+Lemma repeated_initial_window_example :
+  rfc_valid w_k2s = true /\ single_init w_k2s = false /\ c09_ok w_k2s (obs_of w_k2s) = true
+  /\ sents Sv 1 (concat (firstn 4 (obs_of w_k2s))) = 0%Z /\ sents Sv 1 (concat (obs_of w_k2s)) = 30%Z.
+Proof. vm_compute. repeat split; reflexivity. Qed.
